@@ -134,6 +134,19 @@ Squeeze(text) ==
                ELSE [m |-> "in", out |-> Append(a.out, c)],
              [m |-> "out", out |-> <<>>], text).out
 
+\* every whitespace character (blank or line break) outside the quoted strings removed: what is
+\* left is what two serialisations of one tree under different options must have in common
+IsWs(c) == c = SP \/ c = TAB \/ c = LF \/ c = CR
+SqueezeWs(text) ==
+    FoldLeft(LAMBDA a, c :
+               IF a.m = "out" THEN
+                   IF IsWs(c) THEN a
+                   ELSE [m |-> IF c = DQ THEN "in" ELSE "out", out |-> Append(a.out, c)]
+               ELSE IF a.m = "in" THEN
+                   [m |-> IF c = DQ THEN "out" ELSE IF c = BS THEN "esc" ELSE "in", out |-> Append(a.out, c)]
+               ELSE [m |-> "in", out |-> Append(a.out, c)],
+             [m |-> "out", out |-> <<>>], text).out
+
 (* ----------------------------------------------------------------- lexer -- *)
 \* lo = [esc |-> BOOLEAN (allow_escapes), fold |-> <<<<c, Str>>, ...>>]: str.casefold() of the
 \* non-ASCII characters in play is supplied by the harness; ASCII is folded here.
